@@ -11,6 +11,7 @@ import (
 	"reflect"
 	"sort"
 	"strings"
+	"unsafe"
 )
 
 // Canon prints v like the wire format with every address and spare capacity 0, map entries sorted
@@ -177,6 +178,50 @@ func canonRuns[T any](xs []T, less func(a, b T) bool) string {
 	return bracket(out)
 }
 
+// overlap reports whether the backing arrays (full capacity) of two slices share memory.
+func overlap[A, B any](x []A, y []B) bool {
+	var a A
+	var b B
+	sx, sy := uintptr(cap(x))*unsafe.Sizeof(a), uintptr(cap(y))*unsafe.Sizeof(b)
+	if sx == 0 || sy == 0 {
+		return false
+	}
+	px := uintptr(unsafe.Pointer(unsafe.SliceData(x)))
+	py := uintptr(unsafe.Pointer(unsafe.SliceData(y)))
+	return px < py+sy && py < px+sx
+}
+
+// aliasFlag: "a" when the result shares its backing array with the input, "f" when it is fresh.
+func aliasFlag(shared bool) string {
+	if shared {
+		return "a"
+	}
+	return "f"
+}
+
+// prebuildViews builds, for every backing-array id that occurs more than once among the inner lists
+// of a list of lists, the longest occurrence first, so that the shorter ones become real views of
+// the same array (rt.Build fills only the cells of the first occurrence it meets).
+func prebuildViews(c *Ctx, inner reflect.Type, outer *SExp) {
+	if !outer.IsL {
+		return
+	}
+	longest := map[string]*SExp{}
+	for _, e := range outer.List[3:] {
+		if e.IsL && e.Head() == "sl" {
+			id := e.List[1].Atom
+			if o, ok := longest[id]; !ok || len(e.List) > len(o.List) {
+				longest[id] = e
+			}
+		}
+	}
+	for _, e := range outer.List[3:] {
+		if e.IsL && e.Head() == "sl" && longest[e.List[1].Atom] == e {
+			c.Build(inner, e)
+		}
+	}
+}
+
 func build[T any](c *Ctx, a *SExp) T {
 	t := reflect.TypeOf((*T)(nil)).Elem()
 	return c.Build(t, a).Interface().(T)
@@ -210,7 +255,7 @@ func Sort[E any](f func([]E) []E, less func(a, b E) bool) OpFunc {
 	return func(c *Ctx, a []*SExp) string {
 		l := build[[]E](c, a[0])
 		out := f(l)
-		return canonRuns(out, less) + ";" + nilness(out == nil) + "," + canonRuns(l, less)
+		return canonRuns(out, less) + ";" + nilness(out == nil) + "," + canonRuns(l, less) + "," + aliasFlag(overlap(out, l))
 	}
 }
 
@@ -257,10 +302,10 @@ func Unique[E any](f func([]E) []E, useMap bool) OpFunc {
 		l := build[[]E](c, a[0])
 		out := f(l)
 		if useMap {
-			return showSorted(out, true) + ";" + nilness(out == nil) + "," + showSorted(out, false) + "," + showL(l)
+			return showSorted(out, true) + ";" + nilness(out == nil) + "," + showSorted(out, false) + "," + showL(l) + "," + aliasFlag(overlap(out, l))
 		}
 		// print the result before the input: both alias the same array, neither is written here
-		return showE(out) + ";" + nilness(out == nil) + "," + showL(l)
+		return showE(out) + ";" + nilness(out == nil) + "," + showL(l) + "," + aliasFlag(overlap(out, l))
 	}
 }
 
@@ -278,7 +323,8 @@ func UnionL[E any](f func(a, b []E) []E) OpFunc {
 		this := build[[]E](c, a[0])
 		that := build[[]E](c, a[1])
 		out := f(this, that)
-		return showE(out) + ";" + nilness(out == nil) + "," + showL(this) + "," + showL(that)
+		return showE(out) + ";" + nilness(out == nil) + "," + showL(this) + "," + showL(that) + "," +
+			aliasFlag(overlap(out, this)) + aliasFlag(overlap(out, that))
 	}
 }
 
@@ -287,7 +333,7 @@ func IntersectL[E any](f func(a, b []E) []E) OpFunc {
 		this := build[[]E](c, a[0])
 		that := build[[]E](c, a[1])
 		out := f(this, that)
-		return showE(out) + ";" + nilness(out == nil)
+		return showE(out) + ";" + nilness(out == nil) + "," + aliasFlag(overlap(out, this)) + aliasFlag(overlap(out, that))
 	}
 }
 
@@ -317,7 +363,7 @@ func Filter[E any](f func(func(E) bool, []E) []E) OpFunc {
 		l := build[[]E](c, a[0])
 		var log []string
 		out := f(scriptPred[E](bitsOf(a[1]), &log), l)
-		return showE(out) + "|" + bracket(log) + ";" + nilness(out == nil) + "," + showL(l)
+		return showE(out) + "|" + bracket(log) + ";" + nilness(out == nil) + "," + showL(l) + "," + aliasFlag(overlap(out, l))
 	}
 }
 
@@ -326,7 +372,7 @@ func TakeWhile[E any](f func(func(E) bool, []E) []E) OpFunc {
 		l := build[[]E](c, a[0])
 		var log []string
 		out := f(scriptPred[E](bitsOf(a[1]), &log), l)
-		return showE(out) + "|" + bracket(log) + ";" + nilness(out == nil)
+		return showE(out) + "|" + bracket(log) + ";" + nilness(out == nil) + "," + aliasFlag(overlap(out, l))
 	}
 }
 
@@ -362,7 +408,8 @@ func Fmap[E, R any](f func(func(E) R, []E) []R) OpFunc {
 		rs := build[[]R](c, a[1])
 		var log []string
 		out := f(scriptFn[E, R](rs, &log), l)
-		return showE(out) + "|" + bracket(log) + "|" + showL(l) + ";" + nilness(out == nil)
+		// "inputs are not modified": the input as observed afterwards, and the result must be fresh memory
+		return showE(out) + "|" + bracket(log) + "|" + showL(l) + "|" + aliasFlag(overlap(out, l)) + ";" + nilness(out == nil)
 	}
 }
 
@@ -378,8 +425,13 @@ func FmapS[R any](f func(func(rune) R, string) []R) OpFunc {
 
 func Join[E any](f func([][]E) []E) OpFunc {
 	return func(c *Ctx, a []*SExp) string {
+		prebuildViews(c, reflect.TypeOf((*[]E)(nil)).Elem(), a[0])
 		ll := build[[][]E](c, a[0])
 		out := f(ll)
+		shared := false
+		for _, l := range ll {
+			shared = shared || overlap(out, l)
+		}
 		after := "nil"
 		if ll != nil {
 			ss := make([]string, len(ll))
@@ -392,7 +444,7 @@ func Join[E any](f func([][]E) []E) OpFunc {
 		if ll == nil {
 			res = nilness(out == nil)
 		}
-		return res + "|" + after + ";" + nilness(out == nil)
+		return res + "|" + after + "|" + aliasFlag(shared) + ";" + nilness(out == nil)
 	}
 }
 
